@@ -66,6 +66,7 @@ type world struct {
 	deser bool
 
 	sawHamtCar, sawSubsetCar, sawRepeatNoDups bool
+	hung                                      bool
 }
 
 type target struct {
@@ -106,7 +107,7 @@ func oneCase(k *vlib.Case, o ufsgen.TreeOpts, flavour int) {
 		root.Cid, root.Kind, len(root.Children), len(all), len(dirsT), len(filesT), len(st.Blocks), st.Refs, st.HamtLvls, w.deser)
 
 	nreq := r.Range(10, 16)
-	for i := 0; i < nreq; i++ {
+	for i := 0; i < nreq && !w.hung; i++ {
 		var t target
 		switch {
 		case flavour == 2 && len(filesT) > 0 && r.Chance(3, 4):
@@ -130,7 +131,7 @@ func oneCase(k *vlib.Case, o ufsgen.TreeOpts, flavour int) {
 		inner = append(inner, c)
 	}
 	sort.Slice(inner, func(i, j int) bool { return inner[i].KeyString() < inner[j].KeyString() })
-	for i := 0; i < 2 && len(inner) > 0; i++ {
+	for i := 0; i < 2 && len(inner) > 0 && !w.hung; i++ {
 		w.rawByCid(inner[r.Intn(len(inner))])
 	}
 	if (w.sawHamtCar || w.sawSubsetCar) && w.sawRepeatNoDups {
@@ -153,7 +154,14 @@ func (w *world) serve(method, target string, hdr map[string]string) *httptest.Re
 		req.Header.Set(k, v)
 	}
 	rec := httptest.NewRecorder()
-	vlib.Guard(w.k, "serve", 120*time.Second, func() { w.h.ServeHTTP(rec, req) })
+	if !vlib.Guard(w.k, "serve", 10*time.Minute, func() { w.h.ServeHTTP(rec, req) }) {
+		// watchdog fired (class hang/serve recorded, batch aborted); the handler
+		// goroutine still owns rec, hand out an empty one
+		w.hung = true
+		r2 := httptest.NewRecorder()
+		r2.Code = 0
+		return r2
+	}
 	return rec
 }
 
@@ -189,6 +197,9 @@ func (w *world) rawCheck(u string, hdr map[string]string, want cid.Cid, what str
 	k := w.k
 	k.Logf("GET+HEAD raw %s %v [%s]", u, hdr, what)
 	rec := w.serve("GET", u, hdr)
+	if w.hung {
+		return
+	}
 	body := rec.Body.Bytes()
 	k.Logf("  -> %d %dB Content-Type=%q", rec.Code, len(body), rec.Header().Get("Content-Type"))
 	k.C.Count("raw_requests", 1)
@@ -213,6 +224,9 @@ func (w *world) rawCheck(u string, hdr map[string]string, want cid.Cid, what str
 	}
 	k.C.Count("raw_blocks_verified", 1)
 	hd := w.serve("HEAD", u, hdr)
+	if w.hung {
+		return
+	}
 	if hd.Code != 200 || hd.Header().Get("Content-Length") != strconv.Itoa(len(body)) || hd.Body.Len() != 0 {
 		k.Fail("raw-head", "HEAD describes the same block", fmt.Sprintf("200 Content-Length=%d empty body", len(body)),
 			fmt.Sprintf("%d Content-Length=%s body=%dB", hd.Code, hd.Header().Get("Content-Length"), hd.Body.Len()))
@@ -555,6 +569,9 @@ func (w *world) carRequest(t target, flavour int) {
 	}
 
 	rec := w.serve("GET", u, hdr)
+	if w.hung {
+		return
+	}
 	body := rec.Body.Bytes()
 	streamErr := rec.Header().Get("X-Stream-Error")
 	k.C.Count("car_requests", 1)
